@@ -123,6 +123,7 @@ struct Shared {
   socks: Vec<Mutex<Option<Socket>>>,
   close_started: Vec<Mutex<Option<Instant>>>,
   close_done: Vec<Mutex<Option<Instant>>>,
+  close_ms_max: std::sync::atomic::AtomicU64,
   term_started: Mutex<Option<Instant>>,
   term_done: Mutex<Option<Instant>>,
   actors_at_term: Mutex<Option<u64>>,
@@ -247,9 +248,23 @@ async fn run_op(sh: Arc<Shared>, o: Vec<u64>) -> (u64, String) {
         16 => fmt(sock.disconnect(&sh.eps[a as usize]).await),
         17 => fmt(sock.unbind(&sh.eps[a as usize]).await),
         8 => {
-          *sh.close_started[s].lock().unwrap() = Some(Instant::now());
+          // the FIRST close() of a socket defines "closing started"; every close() call's own duration counts
+          let t_call = Instant::now();
+          {
+            let mut g = sh.close_started[s].lock().unwrap();
+            if g.is_none() {
+              *g = Some(t_call);
+            }
+          }
           let r = sock.close().await;
-          *sh.close_done[s].lock().unwrap() = Some(Instant::now());
+          let t_end = Instant::now();
+          {
+            let mut g = sh.close_done[s].lock().unwrap();
+            if g.is_none() {
+              *g = Some(t_end);
+            }
+          }
+          sh.close_ms_max.fetch_max(t_end.duration_since(t_call).as_millis() as u64, Ordering::SeqCst);
           fmt(r)
         }
         _ => (0, String::new()),
@@ -324,6 +339,7 @@ async fn hist(c: &Value, rt_name: String) -> Value {
     socks,
     close_started: (0..n).map(|_| Mutex::new(None)).collect(),
     close_done: (0..n).map(|_| Mutex::new(None)).collect(),
+    close_ms_max: std::sync::atomic::AtomicU64::new(0),
     term_started: Mutex::new(None),
     term_done: Mutex::new(None),
     actors_at_term: Mutex::new(None),
@@ -372,7 +388,7 @@ async fn hist(c: &Value, rt_name: String) -> Value {
     }
   }
   // ---- epilogue: close whatever is still open, term, look at what is left
-  let mut close_ms_max = 0u64;
+  let mut close_ms_max = sh.close_ms_max.load(Ordering::SeqCst);
   for i in 0..n {
     if let Some(s) = sh.sock(i) {
       if sh.close_done[i].lock().unwrap().is_none() {
